@@ -6,7 +6,7 @@ from .common import *
 
 META = {
     'title': 'MD4/MD5/SHA-0/1/2: constants, Boolean functions, round terms, length strengthening, guards',
-    'expected_min': 245,
+    'expected_min': 248,
     'explanation': 'Constants of SHA-1/SHA-2/MD4/MD5 are folded from the AST and compared with values derived '
                    'from the standards formulas (cube/square roots of primes, sines, FIPS 180-4 5.3.6 IV generation); '
                    'Boolean round functions are tabulated on all 8 input rows; update/iterblocks/__call__/padding '
@@ -146,6 +146,12 @@ def run(ctx):
     cmp_fn(ctx, 'SHA1.initstate', SHA, 'SHA1.initstate', S.SHA1_INITSTATE % (K.SHA1_IV,), unroll=16)
     cmp_fn(ctx, 'MD4.__init__', MD, 'MD4.__init__', S.MD4_INIT % (K.MD4_K, [tuple(x) for x in K.MD4_S]))
     cmp_fn(ctx, 'MD4.initstate', MD, 'MD4.initstate', S.MD4_INITSTATE % (K.MD_IV,), unroll=16)
+    sg32, sg64 = K.SHA2_SIGMA[32], K.SHA2_SIGMA[64]
+    flat = lambda sg: tuple(v for grp in sg for v in grp)
+    cmp_fn(ctx, 'SHA2.__init__', SHA, 'SHA2.__init__', S.SHA2_INIT % (flat(sg32) + (K.sha2_K(32),) + flat(sg64) + (K.sha2_K(64),)))
+    cmp_fn(ctx, 'SHA2.initstate', SHA, 'SHA2.initstate', S.SHA2_INITSTATE % (K.sha2_IV(224), K.sha512t_IV(224), K.sha2_IV(256), K.sha512t_IV(256),
+                                                                            K.sha2_IV(384), K.sha2_IV(512)))
+    cmp_fn(ctx, 'MD5.__init__', MD, 'MD5.__init__', S.MD5_INIT % (K.MD5_K, [tuple(x) for x in K.MD5_S]))
     cmp_fn(ctx, 'SHA1.update', SHA, 'SHA1.update', S.SHA1_UPDATE, OPT)
     cmp_fn(ctx, 'SHA2.update', SHA, 'SHA2.update', S.SHA2_UPDATE, OPT)
     cmp_fn(ctx, 'SHA1.iterblocks', SHA, 'SHA1.iterblocks', S.SHA_ITERBLOCKS)
